@@ -727,6 +727,7 @@ func (db *DB) Sync() error {
 
 // getMemtables returns the current memtables and get references.
 func (db *DB) getMemTables() ([]*memTable, func()) {
+	verifhook.Point("memtables.beforePin")
 	db.lock.RLock()
 	defer db.lock.RUnlock()
 
